@@ -223,6 +223,23 @@ pub fn gnp_events<W: Write>(em: &mut Emitter<W>, nmax: i32, nseeds: u64, thoroug
             em.emit(json!({"parent": 0, "op": {"k": "complete"}, "n": n, "directed": directed, "r": r}));
         }
     }
+    // sizes on either side of thresholds a generator may key on: the structure only; with no loop, no repeat, no
+    // out-of-range endpoint and the full count, the edge set is the complete one (CompleteBigChecks)
+    let mut big: Vec<i32> = vec![20, 21, 26, 63, 64, 65, 127, 128, 129, 200, 257];
+    if thorough {
+        big.extend([300, 513, 1000, 1001]);
+    }
+    for n in big {
+        for directed in [true, false] {
+            let r = guarded(|| {
+                let g = classic::complete_graph(n, directed);
+                let mut st = structure(&g, n, directed);
+                st["e"] = json!("");
+                st
+            });
+            em.emit(json!({"parent": 0, "op": {"k": "complete_big"}, "n": n, "directed": directed, "r": r}));
+        }
+    }
     let r = guarded(|| {
         let g = social::karate_club_graph();
         let mut st = structure(&g, 34, false);
